@@ -151,6 +151,11 @@ def lab_key(l: list[Any]) -> tuple[Any, ...]:
 def monitor_startup(case: dict[str, Any], impl: dict[str, Any]) -> list[tuple[str, str]]:
     """C05 / C06 / C07 stated on the observed trace, with exact virtual times from the reference."""
     fails: list[tuple[str, str]] = []
+    for e in impl["trace"]:
+        if e["l"][0] == "probeFailed":
+            fails.append(("C12", f"inside prepare()/start() of component {e['l'][1]}: a new context did not take the context "
+                                 f"start_component was called in as its parent, or the current context was not restored"))
+            fails.append(("C05", f"component {e['l'][1]} did not run in its own component context delegating to the caller's"))
     if case["timeout"] == 0:
         nl = impl["ref_nolimit"]
         needs_time = nl["outcome"]["k"] == "timeout" or (nl["outcome"]["k"] == "returned" and nl["end"] > 0) or \
